@@ -1,0 +1,95 @@
+//! Verification shim around `scc::HashMap`, compiled only with
+//! `--cfg kmertools_verif`: the keyed operations announce a scheduling point
+//! before they run on the real map, everything else derefs to the real map.
+#![allow(dead_code)]
+use std::hash::Hash;
+use std::ops::Deref;
+
+use ktio::verif::point;
+use scc::hash_map::{Entry, OccupiedEntry};
+use scc::Equivalent;
+
+pub struct SccMap<K, V>(scc::HashMap<K, V>)
+where
+    K: Eq + Hash;
+
+impl<K: Eq + Hash, V> SccMap<K, V> {
+    pub fn new() -> Self {
+        Self(scc::HashMap::new())
+    }
+
+    pub fn entry(&self, key: K) -> Entry<'_, K, V> {
+        point("map.entry", 0);
+        self.0.entry(key)
+    }
+
+    pub fn insert(&self, key: K, val: V) -> Result<(), (K, V)> {
+        point("map.insert", 0);
+        self.0.insert(key, val)
+    }
+
+    pub fn upsert(&self, key: K, val: V) -> Option<V> {
+        point("map.upsert", 0);
+        self.0.upsert(key, val)
+    }
+
+    pub fn update<Q, U, R>(&self, key: &Q, updater: U) -> Option<R>
+    where
+        Q: Equivalent<K> + Hash + ?Sized,
+        U: FnOnce(&K, &mut V) -> R,
+    {
+        point("map.update", 0);
+        self.0.update(key, updater)
+    }
+
+    pub fn remove<Q>(&self, key: &Q) -> Option<(K, V)>
+    where
+        Q: Equivalent<K> + Hash + ?Sized,
+    {
+        point("map.remove", 0);
+        self.0.remove(key)
+    }
+
+    pub fn get<Q>(&self, key: &Q) -> Option<OccupiedEntry<'_, K, V>>
+    where
+        Q: Equivalent<K> + Hash + ?Sized,
+    {
+        point("map.get", 0);
+        self.0.get(key)
+    }
+
+    pub fn read<Q, R, F: FnOnce(&K, &V) -> R>(&self, key: &Q, reader: F) -> Option<R>
+    where
+        Q: Equivalent<K> + Hash + ?Sized,
+    {
+        point("map.read", 0);
+        self.0.read(key, reader)
+    }
+
+    pub fn contains<Q>(&self, key: &Q) -> bool
+    where
+        Q: Equivalent<K> + Hash + ?Sized,
+    {
+        point("map.contains", 0);
+        self.0.contains(key)
+    }
+}
+
+impl<K: Eq + Hash, V> Default for SccMap<K, V> {
+    fn default() -> Self {
+        Self::new()
+    }
+}
+
+impl<K: Eq + Hash + Clone, V: Clone> Clone for SccMap<K, V> {
+    fn clone(&self) -> Self {
+        Self(self.0.clone())
+    }
+}
+
+impl<K: Eq + Hash, V> Deref for SccMap<K, V> {
+    type Target = scc::HashMap<K, V>;
+    fn deref(&self) -> &Self::Target {
+        &self.0
+    }
+}
